@@ -1,7 +1,7 @@
 (* Property C05: a critical failure aborts at once: nothing new starts, running jobs are cancelled.
    Only property theorems here. Model R; level 0 unless stated. *)
 From AJ Require Import Common.Util Run.RModel Run.RFacts Run.RFacts2 Run.RInv Run.RInv4 Run.RInv5 Run.RMon Run.RProps1
-  Run.RProps2 Run.RProps3 Props.RExample Run.RWin Run.RProps4 Run.RShut1 Run.RShut2 Run.RTime Run.RProps5.
+  Run.RProps2 Run.RProps3 Props.RExample Run.RWin Run.RProps4 Run.RShut1 Run.RShut2 Run.RTime Run.RProps5 Run.RTidy.
 
 (* The main wake that reports the failed critical job leaves the loop with the critical path; in
    the state after it every job of the scheduler that is still pending (running, or queued for a
@@ -71,7 +71,21 @@ Theorem C05_shutdown_bounded : forall lvl c h s n, wf c = true -> 3 <= lvl -> Re
 Proof. intros lvl c h s n W Hl Hr. apply (t_sd c s (InvT3_reach lvl c h s W Hl Hr)). Qed.
 Print Assumptions C05_shutdown_bounded.
 
-(* Not proved: that the tidy phases (waiting for the cancelled tasks, cancelling the straggling
-   handlers) take no time when the jobs honour cancellation at once; acceptance at level 3
-   enforces it on every implementation history (a clock jump needs a quiescent model state). *)
+(* when the jobs honour cancellation at once (cancellation takes no time: j_cdur = 0), the tidy
+   phases take no time: the clock can only move while no run is waiting for cancelled tasks and no
+   broadcast is waiting for cancelled handlers.  So the run ends exactly when the cancellations
+   (instantaneous) and the shutdown wait (bounded by shutdown_timeout) are over. *)
+Theorem C05_tidy_takes_no_time : forall c h s, wf c = true -> prompt_cancel c -> Reach 3 c h s ->
+  quiescent c s = true ->
+  (forall n, sched_id c n = true -> (forall w, ph (Rn s n) <> PTidy w) /\ ph (Rn s n) <> PCTidy) /\
+  (forall n, sched_id c n = true -> sp (Sd s n) <> SdTidy).
+Proof. exact tidy_takes_no_time. Qed.
+Print Assumptions C05_tidy_takes_no_time.
+
+Theorem C05_no_tick_while_tidying : forall c h s t s', wf c = true -> prompt_cancel c -> Reach 3 c h s ->
+  step 3 c s (ETick t) = Some s' ->
+  forall n, sched_id c n = true ->
+    (forall w, ph (Rn s n) <> PTidy w) /\ ph (Rn s n) <> PCTidy /\ sp (Sd s n) <> SdTidy.
+Proof. exact no_tick_while_tidying. Qed.
+Print Assumptions C05_no_tick_while_tidying.
 
